@@ -62,7 +62,33 @@ def _one_tree(args):
         if npaths <= 1500 and history[-1] == ("relabel",):
             d2, _, _ = enumerate_outcomes(lambda r: tuple(d.idx for d in RootPermutationDistribution.sample(t2, r)))
         edited.append((history, float(RootPermutationDistribution.log_pdf(t2)), d2))
-    return spec, dist, npaths, log_pdf, compatible_orders(spec), edited
+    # query - edit IN PLACE - query again on ONE tree object (what a sampler that keeps working on its tree does): anything the
+    # tree memoises about subtree sizes must follow every edit.  A spare data point is added to / removed from each clone and the
+    # outliers, an own point is moved between clones; after every step log_pdf must be -log(#orders) of the forest as it is now.
+    inplace = []
+    spare = data[len(vals) - 1]
+    if spare.idx not in spec_points(spec):
+        t3 = build_tree(spec, data)
+        RootPermutationDistribution.log_pdf(t3)
+
+        def probe(step):
+            s3 = tree_spec(t3)
+            inplace.append((step, float(RootPermutationDistribution.log_pdf(t3)), len(compatible_orders(s3)), s3))
+
+        for node in sorted(t3.nodes):
+            t3.add_data_point_to_node(spare, node); probe("add spare point to clone %s" % node)
+            t3.remove_data_point_from_node(spare, node); probe("remove it from clone %s" % node)
+        t3.add_data_point_to_outliers(spare); probe("add spare point to the outliers")
+        t3.remove_data_point_from_outliers(spare); probe("remove it from the outliers")
+        names = sorted(t3.nodes)
+        big = [n_ for n_ in names if len(t3.get_data(n_)) >= 2]
+        if big and len(names) >= 2:
+            src = big[0]
+            dst = [n_ for n_ in names if n_ != src][-1]
+            dp = t3.get_data(src)[0]
+            t3.remove_data_point_from_node(dp, src); probe("take point %d out of clone %s" % (dp.idx, src))
+            t3.add_data_point_to_node(dp, dst); probe("put it into clone %s" % dst)
+    return spec, dist, npaths, log_pdf, compatible_orders(spec), edited, inplace
 
 
 def run(ctx):
@@ -90,7 +116,7 @@ def run(ctx):
 
     with ProcessPoolExecutor(max_workers=12) as ex:
         results = list(ex.map(_one_tree, [(spec, vals) for spec in specs], chunksize=8))
-    for spec, dist, npaths, log_pdf, brute, edited in results:
+    for spec, dist, npaths, log_pdf, brute, edited, inplace in results:
         nb = len(brute)
         ctx.case(key=spec, nontrivial=nb > 1, sample={"tree": spec, "orders": nb, "paths": npaths, "log_pdf": log_pdf})
         ctx.count("outliers=%d" % len(spec[1]))
@@ -121,6 +147,11 @@ def run(ctx):
                 ctx.fail("C09:log_pdf:edited:%s" % shape, "after %s log_pdf is %.6f but -log(#compatible orders = %d) is %.6f" % (hist, lp2, nb, -math.log(nb)), {"tree": spec, "history": hist, "log_pdf": lp2, "n_orders": nb})
             if d2 is not None and (set(d2) != set(brute) or max(abs(p - 1.0 / nb) for p in d2.values()) > 1e-9):
                 ctx.fail("C09:sample:edited:%s" % shape, "after %s the sampled orders are not uniform over the compatible orders" % hist, {"tree": spec, "history": hist})
+        for step, lp3, nb3, s3 in inplace:
+            ctx.count("in_place_edit_steps")
+            if abs(lp3 + math.log(nb3)) > 1e-9:
+                ctx.fail("C09:log_pdf:in-place-edit:%s" % step.split(" clone")[0].split(" %")[0][:24].replace(" ", "-"), "after '%s' on a tree whose log_pdf had been queried, log_pdf is %.6f but -log(#compatible orders = %d) is %.6f" % (step, lp3, nb3, -math.log(nb3)),
+                         {"tree": spec, "step": step, "forest_now": s3, "log_pdf": lp3, "n_orders": nb3})
         cases.append((spec, dist, log_pdf))
     # ---- correspondence: model vs implementation inside Coq
     header = "\n".join([
@@ -201,7 +232,7 @@ def replay(ctx, doc):
         return
     spec = _tup(rp["tree"])
     vals = rational_values(ctx.rng, max(spec_points(spec)) + 1, 1, 3)
-    spec, dist, npaths, log_pdf, brute, edited = _one_tree((spec, vals))
+    spec, dist, npaths, log_pdf, brute, edited, inplace = _one_tree((spec, vals))
     nb = len(brute)
     for history, lp2, d2 in edited:
         bad2 = lp2 is None or abs(lp2 + math.log(nb)) > 1e-9 or (d2 is not None and (set(d2) != set(brute) or max(abs(p - 1.0 / nb) for p in d2.values()) > 1e-9))
